@@ -28,6 +28,7 @@ def _config(draw, tier, **bkw):
         "exclude_last": draw(st.booleans()),
         "padding": draw(st.sampled_from([-1, -100, 0, 7])),
         "entry": draw(st.sampled_from(["function", "module"])),
+        "layout": draw(st.sampled_from(G.LAYOUTS)),
     }
 
 
@@ -55,6 +56,7 @@ def _classes(case, b, rl, hl, any_gap):
     if 0 in rl:
         cl.append("empty_ref")
     cl.append("entry_" + case["entry"])
+    cl.append("layout_" + case.get("layout", "contiguous"))
     nt = (("costs_unequal" in cl and any_gap) or "empty_ref" in cl or "ragged" in cl)
     return nt, cl
 
@@ -88,7 +90,7 @@ def _call_prefix_er(case, ref, hyp):
           required_classes=["tie_matters", "empty_ref", "costs_equal", "costs_unequal", "norm"])
 def _er_bounds(case):
     b = case["b"]
-    ref, hyp = G.to_tensors(b, case["batch_first"])
+    ref, hyp = G.to_tensors(b, case["batch_first"], case.get("layout", "contiguous"))
     got = _call_er(case, ref, hyp)
     require(tuple(got.shape) == (b["N"],), "error_rate result shape", tuple(got.shape), (b["N"],))
     got = got.tolist()
@@ -119,7 +121,7 @@ def _er_bounds(case):
 def _prefix_er_bounds(case):
     b = case["b"]
     N, H = b["N"], b["H"]
-    ref, hyp = G.to_tensors(b, case["batch_first"])
+    ref, hyp = G.to_tensors(b, case["batch_first"], case.get("layout", "contiguous"))
     got = _call_prefix_er(case, ref, hyp)
     rows = H if case["exclude_last"] else H + 1
     exp_shape = (N, rows) if case["batch_first"] else (rows, N)
@@ -243,6 +245,7 @@ def _mer_case(draw, tier):
         "sub_avg": draw(st.booleans()), "batch_first": draw(st.booleans()),
         "reduction": draw(st.sampled_from(["none", "sum", "mean"])),
         "entry": draw(st.sampled_from(["function", "module"])),
+        "layout": draw(st.sampled_from(G.LAYOUTS)),
     }
 
 
